@@ -20,8 +20,8 @@ RULE = (
     "contradict every completion of the node's path (brute force over completions).  The same sets go through buildPrintedResults for every apparent winner (the drawing library replaced by a recorder): every drawn tree's unpruned leaves must be exactly the uncontradicted orders.  The sets (all for n=3, of size <= 2 for n=4) also make the round trip real IRV Contest -> audit assertions with confirmation flags -> the audit log's JSON -> parseAssertions, which must give back the same pruning tuples.  Non-trivial = tree with at least one pruned node below the root; distinct = distinct "
     "(n, root, assertion set)"
 )
-ASSUMPTIONS = ["assertion sets are sets: no assertion is listed twice with the same confirmation flag", "NEN items whose eliminated set is everyone else are not well-formed and excluded"]
-REQUIRE_VAC = ["audit_logs_parsed", "buildPrintedResults_runs", "trees_with_unpruned_leaf", "trees_fully_pruned", "trees_pruned_below_root", "nodes_with_two_tags"]
+ASSUMPTIONS = ["an assertion listed twice is numbered twice (every copy that contradicts a node is named in its tag)", "NEN items whose eliminated set is everyone else are not well-formed and excluded"]
+REQUIRE_VAC = ["lists_with_a_repeated_assertion", "audit_logs_parsed", "buildPrintedResults_runs", "trees_with_unpruned_leaf", "trees_fully_pruned", "trees_pruned_below_root", "nodes_with_two_tags"]
 NAMES = ["1", "12", "11", "2"]  # identifiers that collide when concatenated without a separator ({1,12} v {11,2})
 PLAN = {"quick": {3: 15, 4: 3}, "thorough": {3: 15, 4: 5}}
 
@@ -318,6 +318,16 @@ def run_shard(sh, rec):
                     rec.vac("buildPrintedResults_runs")
                     for key, what in pv:
                         rec.violate(key, what, {"printed": True, "n": n, "winner": root, "assertions": [[a[0], a[1], a[2] if a[0] == "NEB" else sorted(a[2])] for a in asns], "flags": fl})
+                if asns and mode == 0 and not int_ids and n == 3:
+                    # the same set with its first assertion listed once more at the end (a redundant list: e.g. two
+                    # not-eliminated-next assertions that differ only in their loser become the same pruning tuple): the
+                    # nodes it contradicts must name both copies
+                    v2, _ = judge(n, root, asns + [asns[0]], fl + [fl[0]], False)
+                    rec.evals()
+                    rec.vac("lists_with_a_repeated_assertion")
+                    for key, what in v2:
+                        rec.violate(key + "|repeated-assertion", what + " [first assertion listed again at the end]",
+                                    {"n": n, "root": root, "assertions": [[a[0], a[1], a[2] if a[0] == "NEB" else sorted(a[2])] for a in asns + [asns[0]]], "flags": fl + [fl[0]], "int_ids": False, "repeated": True})
                 if rec.want_sample((n, idx, mode, root)):
                     rec.sample({"candidates": n, "alternative_winner": NAMES[root], "assertions": [show(a) for a in asns], "confirmed": fl, "tree_has_unpruned_leaf": info and info["unpruned"]})
 
@@ -347,4 +357,5 @@ def run_case(case):
         return judge_parsed(case["n"], asns, case["flags"], case["winner"])
     if case.get("printed"):
         return judge_printed(case["n"], asns, case["flags"], case["winner"])
-    return judge(case["n"], case["root"], asns, case["flags"], case.get("int_ids", False))[0]
+    v = judge(case["n"], case["root"], asns, case["flags"], case.get("int_ids", False))[0]
+    return [(k + "|repeated-assertion", w) for k, w in v] if case.get("repeated") else v
